@@ -673,6 +673,50 @@ pub fn run(ctx: &mut Ctx) -> (&'static str, String, bool) {
         }
     }
 
+    // ---- 7. ASCII neighbours of undecodable bytes survive: marker, a run of invalid / arbitrary bytes, then
+    //         two spaces (0x20 is no trail byte in any of the tables) and an ASCII tail that must come out unchanged ----
+    {
+        let mut p = Part::new();
+        let mut r = ctx.rng.fork(107);
+        const TAIL: &[u8] = b"  [abc] end";
+        for m in "LGCETBJHSK".bytes() {
+            for fill in [0xffu8, 0x80, 0x81, 0xa0, 0xfe, 0x00] {
+                for run in [1usize, 2, 5, 11, 16, 40, 100] {
+                    for variant in 0..3 {
+                        let mut input = vec![b'^', m];
+                        match variant {
+                            0 => input.extend(std::iter::repeat(fill).take(run)),
+                            1 => input.extend((0..run).map(|_| 0x80 + r.below(0x80) as u8)),
+                            _ => {
+                                input.extend_from_slice(b"ok ");
+                                input.extend(std::iter::repeat(fill).take(run));
+                            },
+                        }
+                        if fill == 0 && variant != 1 {
+                            continue; // a NUL ends the text
+                        }
+                        input.extend_from_slice(TAIL);
+                        p.evaluations += 1;
+                        p.distinct(&input);
+                        match guarded(|| to_lossy_string(&input).to_string()) {
+                            Ok(out) => {
+                                if !out.ends_with(" [abc] end") {
+                                    p.violation(
+                                        "C10/decode/ascii-after-undecodable-bytes-lost",
+                                        format!("to_lossy_string({}) = {:?}: the ASCII text after the undecodable bytes must survive", hex(&input), out.chars().rev().take(24).collect::<String>().chars().rev().collect::<String>()),
+                                        json!({"input_hex": hex(&input)}),
+                                    );
+                                }
+                            },
+                            Err(pn) => p.violation("C10/decode-panic", format!("to_lossy_string({}) panicked: {pn}", hex(&input)), json!({"input_hex": hex(&input)})),
+                        }
+                    }
+                }
+            }
+        }
+        ctx.merge(p);
+    }
+
     for s in ["Árvíztűrő", "ěšΩж美한中"] {
         if let Ok(v) = guarded(|| {
             let b = to_lossy_bytes(s).to_vec();
@@ -685,7 +729,7 @@ pub fn run(ctx: &mut Ctx) -> (&'static str, String, bool) {
     ctx.assume("encode-side strings are drawn from 'safe' characters: wherever a same-named WHATWG encoder can encode them, the bytes are the Microsoft mapping of that character");
     (
         "exploration",
-        "every core entry of the ten tables decoded after its marker (exhaustive); every safe character encoded in ASCII context (quick: every 3rd, offset by seed); codepage-pair and random multi-switch strings; BOM-lookalike prefixes; every double-byte character with trail byte 0x5E before every marker letter; ASCII strings (exhaustive to length 2/3); unrepresentable characters; every byte (pair) after every marker for totality; distinct = distinct inputs".into(),
+        "every core entry of the ten tables decoded after its marker (exhaustive); every safe character encoded in ASCII context (quick: every 3rd, offset by seed); codepage-pair and random multi-switch strings; BOM-lookalike prefixes; every double-byte character with trail byte 0x5E before every marker letter; ASCII strings (exhaustive to length 2/3); unrepresentable characters; every byte (pair) after every marker for totality; runs of 1-100 undecodable bytes after every marker followed by an ASCII tail that must survive; distinct = distinct inputs".into(),
         false,
     )
 }
